@@ -12,3 +12,7 @@ claim('C02', 'exhaustive enumeration of command programs (length<=3/4) + Hypothe
       'Every program M+<=3 commands over the 20 letters (quick; <=4 thorough) and ~20k/400k generated longer programs are parsed by the library and by an independent interpreter written from the SVG grammar; results must be equal segment for segment, and two spellings of one program must parse equal.',
       'Trusts: vp/ref/svgpath_ref.py (scanner+interpreter, self-checked against the printer on every case); Arc construction delegated to the library constructor (C04).',
       'DESIGN.md 2/C02')
+claim('C04', 'Hypothesis-generated arcs from the centre form and perturbations; validity predicate + differential against an independent F.6.5/F.6.6 implementation + closed-form/finite-difference derivatives',
+      'About 40k (quick) / 600k (thorough) arcs covering all flag pairs, too-small/exactly-fitting/generous/negative radii, rotations inside and outside [0,360), eccentricity to 1e3; each checked for end points, radius policy, sweep/large-arc semantics, agreement with an independent reference at 17 parameters, derivatives n=1..6 and Bezier-approximation end points.',
+      'Trusts: vp/ref/arc_ref.py; tolerance 1e-7*size (2e-4*size in the degenerate exactly-fitting window) because the library uses acos for angles; KF01 (radii >1e6 x chord) is a recorded finding.',
+      'DESIGN.md 2/C04')
